@@ -28,7 +28,7 @@ RULE = ("history = 1..20 (thorough 30) ops drawn from: complete a pool blob thro
         "(sd blob through a writer + store_stream: pending rows), API delete_blobs of 1..3 known hashes "
         "(with/without delete_from_db, optionally dying after j file removals before the DB delete), removing a "
         "blob file behind the manager's back, dropping in a file named by a known hash (never seen / pending / "
-        "deleted) or by a fresh valid hash, dropping files with invalid names, deleting a DB row while the file "
+        "deleted) or by a fresh valid hash (also names made of digits only / letters only), dropping files with invalid names, deleting a DB row while the file "
         "stays, caching a blob object (get_blob), restart (clean or unclean, optionally repeated at once); 1 history "
         "in 26 starts with 499..502 files the DB has never seen (ensure_completed_blobs_status flushes a batch "
         "at 501); every history ends with restart+restart. Ops pick hashes by (mode, index): index modulo the "
@@ -487,6 +487,12 @@ class World:
 
     async def op_drop_unknown(self, op):
         h = _h(b"c18-unknown-%d" % op["k"])
+        shape = op.get("shape", "hash")
+        if shape == "digits":        # 96 hex characters without a letter: as valid a blob name as any other
+            h = "".join(str(int(c, 16) % 10) for c in h)
+        elif shape == "letters":
+            h = "".join("abcdef"[int(c, 16) % 6] for c in h)
+        self.out.label("drop_unknown:name-" + shape)
         self.add_known(h)
         if not self.has_file(h) and not os.path.lexists(os.path.join(self.blob_dir, h)):
             form = op.get("form", "small")
@@ -600,8 +606,9 @@ def op_strategy():
     rm_file = st.builds(lambda i: {"op": "rm_file", "i": i}, idx)
     drop_file = st.builds(lambda m, i, c: {"op": "drop_file", "mode": m, "i": i, "content": c},
                           st.sampled_from([0, 2, 2, 4]), idx, st.sampled_from([0, 0, 1, 2]))
-    drop_unknown = st.builds(lambda k, f: {"op": "drop_unknown", "k": k, "form": f}, st.integers(0, 5),
-                             st.sampled_from(["small", "small", "oversized", "symlink"]))
+    drop_unknown = st.builds(lambda k, f, sh: {"op": "drop_unknown", "k": k, "form": f, "shape": sh}, st.integers(0, 5),
+                             st.sampled_from(["small", "small", "oversized", "symlink"]),
+                             st.sampled_from(["hash", "hash", "digits", "letters"]))
     drop_invalid = st.builds(lambda k, kind: {"op": "drop_invalid", "k": k, "kind": kind}, st.integers(0, 5),
                              st.sampled_from(INVALID_KINDS))
     db_row_delete = st.builds(lambda m, i: {"op": "db_row_delete", "mode": m, "i": i}, st.sampled_from([0, 1, 1, 2]), idx)
@@ -624,5 +631,6 @@ PARTS = [
     Part("history", case_strategy, run_case, 300, 4000, quick_shards=4, thorough_shards=16,
          essential=("window:file-without-row", "window:file-with-pending-row", "window:finished-row-without-file",
                     "crash:complete", "crash:publish", "crash:delete", "op:delete", "restart:repeated",
-                    "op:drop_invalid", "op:remote", "bulk:gt500", "data_store:kept-in-process", "data_store:new-process", "op:announce", "announcer-has-work", "drop_unknown:oversized", "drop_unknown:symlink")),
+                    "op:drop_invalid", "op:remote", "bulk:gt500", "data_store:kept-in-process", "data_store:new-process", "op:announce", "announcer-has-work", "drop_unknown:oversized", "drop_unknown:symlink",
+                    "drop_unknown:name-digits", "drop_unknown:name-letters")),
 ]
